@@ -518,6 +518,12 @@ class TimingMonitor:
                 err("C02.T2" if cell is not None else "C01.O1", f"after the initial call of '{S}' (entry time {start_abs.simplify()!r}) no per-state record holds its expiry = {want}", site)
             else:
                 self.role_f2.setdefault(S, set()).update(f2)
+        # ---- state_tm >= 0: the machine clock is only restarted under states that are entered afresh
+        if self.role_f0 in changed and action[0] in ("execute", "on_iteration"):
+            for ev in events:
+                if ev[0] == "run" and ev[5] == 1 and ev[1] in self.specs and self.specs[ev[1]].kind != "default" and ev[4] is False:
+                    err("C02.T5", f"the machine start instant ({self.role_f0}) is re-based in an iteration that goes on running state '{ev[1]}' without entering it afresh: its entry time and expiry are in the old time base, so state_tm turns negative and the state outlasts its duration", ev[6])
+                    break
         # ---- who may write
         for p in sorted(changed):
             owner = None
